@@ -10,6 +10,8 @@ import vlib
 import fsharness as H
 from props import _stateful as S
 
+EXTRA_PROOF_MODULES = ("FsProofs.MemRefines",)
+
 QUERY_ON_INVALID_OK = {"exists", "isdir", "isfile"}
 
 
